@@ -110,6 +110,8 @@ def frac_eval(e, vals):
         k = num(k)
         if k.denominator != 1 or k < 0:
             raise NotPoly("non-integer / negative power")
+        if k > 64:
+            raise NotPoly("exponent too large to expand exactly")
         return int(k)
 
     out = []
@@ -174,6 +176,10 @@ def frac_eval(e, vals):
 
 
 class NoValue(Exception):
+    pass
+
+
+class BuildError(Exception):
     pass
 
 
@@ -516,7 +522,14 @@ def observe(make, T, shallow, pre=None):
         except Exception as ex:  # noqa: BLE001
             return f"raise:{type(ex).__name__}"
 
-    e = make()
+    try:
+        with warnings.catch_warnings():
+            warnings.simplefilter("ignore")
+            e = make()
+    except RecursionError:
+        raise
+    except Exception as ex:  # noqa: BLE001
+        raise BuildError(type(ex).__name__)
     pre_idx, pre_T = [], None
     if pre is not None:
         prng, p, pre_T = pre
@@ -976,7 +989,12 @@ def check_cases(cases, rep, rng, thorough, T_choices=(400, 0, 3)):
         pre = None
         if rng.random() < 0.5:
             pre = (rng, rng.choice([0.25, 0.6, 1.0]), rng.choice([0, 400, 3]))
-        o = observe(make, T, shallow, pre)
+        try:
+            o = observe(make, T, shallow, pre)
+        except BuildError as ex:
+            # the API refused to build the expression on this tree: no expression, nothing to classify
+            rep.skipped[f"construction raised {ex}"] = rep.skipped.get(f"construction raised {ex}", 0) + 1
+            continue
         e = o["e"]
         o["tag"], o["T"] = tag, T
         try:
@@ -1130,7 +1148,10 @@ def search(ctx, rep):
             old = A._RECURSION_THRESHOLD
             pre_idx = []
             try:
-                e = make()
+                try:
+                    e = make()
+                except Exception:  # noqa: BLE001   (the API refused to build it on this tree)
+                    break
                 if with_history:
                     pre_idx = choose_pre(e, rng, 1.0)
                     prequery(e, pre_idx, 400)
